@@ -72,6 +72,33 @@ pub fn match_known<'a>(
     })
 }
 
+/// Executes `cfg` in a child process of `bin` (subcommand `transcript`); None = the child died.
+fn child_transcript(bin: &std::path::Path, cfg: &RunCfg, scratch: &str, prop: &str) -> Option<String> {
+    let file = ReplayFile {
+        property: prop.to_string(),
+        base_seed: 0,
+        run_index: 0,
+        class: "trial".into(),
+        message: String::new(),
+        event_hash: 0,
+        minimised: false,
+        original_ops: 0,
+        original_deviations: 0,
+        cfg: cfg.clone(),
+        trace: vec![],
+    };
+    let path = format!("{scratch}/trial-{}.json", std::process::id());
+    std::fs::write(&path, serde_json::to_string(&file).ok()?).ok()?;
+    let o = Command::new(bin).arg("transcript").arg(&path).output().ok()?;
+    if !o.status.success() {
+        return None;
+    }
+    String::from_utf8_lossy(&o.stdout)
+        .lines()
+        .find(|l| l.starts_with("T "))
+        .map(|l| l.to_string())
+}
+
 /// (runs, workers) per property and tier.
 pub fn budget(prop: &str, tier: &str) -> (u64, usize) {
     let quick: u64 = match prop {
@@ -338,7 +365,14 @@ pub fn check(prop: &str, tier: &str) -> i32 {
     confirmed_aborts.dedup();
     for (idx, variant) in confirmed_aborts.iter().take(5) {
         if abort_in_scope {
-            let cfg = crate::gen::generate(prop, seed, *idx);
+            let cfg0 = crate::gen::generate(prop, seed, *idx);
+            let bin = exes[*variant].clone();
+            let original_ops = cfg0.pre.len() + cfg0.threads.iter().map(|t| t.len()).sum::<usize>();
+            let (cfg, _) = crate::replay::minimise_external(
+                cfg0,
+                std::time::Duration::from_secs(25),
+                |c| child_transcript(&bin, c, &outdir, prop).is_none(),
+            );
             let file = ReplayFile {
                 property: prop.to_string(),
                 base_seed: seed,
@@ -349,8 +383,8 @@ pub fn check(prop: &str, tier: &str) -> i32 {
                     VARIANTS[*variant]
                 ),
                 event_hash: *variant as u64,
-                minimised: false,
-                original_ops: 0,
+                minimised: true,
+                original_ops,
                 original_deviations: 0,
                 cfg,
                 trace: vec![],
@@ -416,7 +450,14 @@ pub fn check(prop: &str, tier: &str) -> i32 {
             }
         }
         for idx in divergences.iter().take(5) {
-            let cfg = crate::gen::generate(prop, seed, *idx);
+            let cfg0 = crate::gen::generate(prop, seed, *idx);
+            let original_ops = cfg0.pre.len() + cfg0.threads.iter().map(|t| t.len()).sum::<usize>();
+            let (b0, b1) = (exes[0].clone(), exes[1].clone());
+            let (cfg, _) = crate::replay::minimise_external(
+                cfg0,
+                std::time::Duration::from_secs(25),
+                |c| child_transcript(&b0, c, &outdir, prop) != child_transcript(&b1, c, &outdir, prop),
+            );
             let file = ReplayFile {
                 property: prop.to_string(),
                 base_seed: seed,
@@ -424,8 +465,8 @@ pub fn check(prop: &str, tier: &str) -> i32 {
                 class: "build-divergence".to_string(),
                 message: "the build with debug assertions and overflow checks and the build without them produced different transcripts for this run".to_string(),
                 event_hash: 0,
-                minimised: false,
-                original_ops: 0,
+                minimised: true,
+                original_ops,
                 original_deviations: 0,
                 cfg,
                 trace: vec![],
